@@ -361,8 +361,15 @@ func runFD02(p *Prog, r *RuleRun) {
 	if len(lookups) < 4 {
 		r.Unknown("anchor", "?", fmt.Sprintf("only %d of the 4 lookup functions found", len(lookups)))
 	}
+	isLookup := map[*ssa.Function]bool{}
 	for _, lk := range lookups {
+		isLookup[lk.fn] = true
+	}
+	for _, lk := range lookups {
+		lk := lk
 		spec := &fdSpec{Symbol: lk.symbols,
+			// private helpers of the lookup (range tests, the sealed/unsealed halves) are part of it
+			Inline: func(callee *ssa.Function) bool { return callee.Pkg == lk.fn.Pkg && !isLookup[callee] },
 			Effect: func(ins ssa.Instruction, eval func(ssa.Value) fdVal) (string, bool) {
 				if ci, ok := ins.(ssa.CallInstruction); ok {
 					n := eventName(ci)
